@@ -253,6 +253,16 @@ Proof.
     intros ak' ai' Hr. apply Osw. apply switch_ready_set_seq. exact Hr.
 Qed.
 
+(* a plaintext handshake record of a direction that has not sent its ChangeCipherSpec, after the peer has (TLS <= 1.2: a NewSessionTicket
+   behind the client's Finished): nothing is decrypted, the session stays as it is, the record is metadata *)
+Lemma plain_after_peer_ccs s r (srv : bool) : r_type r = 22 -> (if srv then ts_server_cc s else ts_client_cc s) = false ->
+  (if srv then ts_client_cc s else ts_server_cc s) = true -> handle_tls_record C tbl parts keylog s r srv = Ok (s, [meta_entry r srv]).
+Proof.
+  intros Hty Hown Hpeer. unfold handle_tls_record. rewrite Hty. change (22 =? 22) with true. cbv iota. unfold handle_tls_handshake_record.
+  assert (Hor : ts_server_cc s || ts_client_cc s = true) by (destruct srv; rewrite Hpeer; [apply orb_true_r|reflexivity]).
+  rewrite Hor. cbn [bind]. unfold handle_handshake_finished. destruct (ts_decryptor s) as [d|]; [|reflexivity]. rewrite Hown. reflexivity.
+Qed.
+
 Lemma session_run_app s x y : session_run s (x ++ y) = (do r1 <- session_run s x; do r2 <- session_run (fst r1) y; Ok (fst r2, snd r1 ++ snd r2)).
 Proof.
   revert s. induction x as [|[srv r] t IH]; intros s.
